@@ -43,7 +43,7 @@ func TestSmallScopeExhaustive(t *testing.T) {
 		for _, scheme := range []string{schemeFeldman, schemePedersen} {
 			for k := 1; k <= 2; k++ {
 				item++
-				if !vlib.Mine(item) {
+				if !vlib.Mine(int(uint32(item) * 2654435761 >> 12)) { // scatter: consecutive items differ only in (scheme, k)
 					continue
 				}
 				c := &cfg{scheme: scheme, pol: p, ids: ordinalIDs(p.N), regime: policy.Ordinal,
